@@ -29,7 +29,7 @@ def evaluate(ctx, P, cases, which='model'):
             out = {'harness_exception': repr(e), 'trace': traceback.format_exc()[-800:]}
         recs.append({'case': c, 'impl': out})
         lines.append(P.driver_line(c) if hasattr(P, 'driver_line') else c)
-    answers = vlib.run_driver(lines, which=which) if lines else []
+    answers = vlib.run_driver(lines, which=which, cluster=getattr(P, 'CLUSTER', 'Z')) if lines else []
     for r, a in zip(recs, answers):
         r['model'] = a.get('model')
         r['spec'] = a.get('spec')
@@ -108,10 +108,10 @@ def run(ctx, pid, args):
             obligations.append((f'translate:{u}', u not in dep_refused, dep_refused.get(u, '')))
         targets = [f'PdbVerif.Props.{pid}'] + list(getattr(P, 'EXTRA_TARGETS', []))
         ok_props, log_props, errs_props, t_build = vlib.lake_build(targets)
-        ok_drv, log_drv, errs_drv, _ = vlib.lake_build(['PdbVerif.Driver.Main'])
+        ok_drv, log_drv, errs_drv, _ = vlib.lake_build([f'PdbVerif.Driver.Main{getattr(P, "CLUSTER", "Z")}'])
         ok_spec = True
         if not ok_drv:
-            ok_spec, log_spec, errs_spec, _ = vlib.lake_build(['PdbVerif.Driver.MainSpecOnly'])
+            ok_spec, log_spec, errs_spec, _ = vlib.lake_build([f'PdbVerif.Driver.MainSpec{getattr(P, "CLUSTER", "Z")}'])
         pins = list(getattr(P, 'PIN_TARGETS', []))
         pin_fail = []
         for pt in pins:
